@@ -12,6 +12,7 @@
 import Gts.Gen.OriginBuf
 import Gts.Lemmas.GoBytes
 import Gts.Lemmas.Origin
+import Gts.Lemmas.OriginStream
 import Gts.Bridge.OriginValidate
 import Gts.Bridge.Origin
 namespace Gts.Bridge
@@ -207,5 +208,192 @@ theorem originBytes_eq (fuel : Nat) (p : Bytes) (h6 : 6 ≤ fuel)
 /-- a parsed receiver: `Bytes` returns the buffer and changes nothing -/
 theorem originBytes_parsed (fuel : Nat) (p : Bytes) : Gen.originBytes fuel p true = .ok (p, p, true) := by
   simp [Gen.originBytes]
+
+/-! ### `NewOrigin` -/
+
+theorem fmtGroups_fuel (p : Bytes) (i : Nat) :
+    ∀ (f f' j : Nat), 60 ≤ j + 10 * f → 60 ≤ j + 10 * f' → fmtGroups p i f j = fmtGroups p i f' j := by
+  intro f
+  induction f with
+  | zero =>
+    intro f' j h h'
+    cases f' with
+    | zero => rfl
+    | succ f' => simp only [fmtGroups]; rw [if_neg (by omega)]
+  | succ f ih =>
+    intro f' j h h'
+    cases f' with
+    | zero => simp only [fmtGroups]; rw [if_neg (by omega)]
+    | succ f' =>
+      simp only [fmtGroups]
+      split
+      · rw [ih f' (j + 10) (by omega) (by omega)]
+      · rfl
+
+theorem fmtLines_fuel (p : Bytes) :
+    ∀ (f f' i : Nat), p.length ≤ i + 60 * f → p.length ≤ i + 60 * f' → fmtLines p f i = fmtLines p f' i := by
+  intro f
+  induction f with
+  | zero =>
+    intro f' i h h'
+    cases f' with
+    | zero => rfl
+    | succ f' => simp only [fmtLines]; rw [if_neg (by omega)]
+  | succ f ih =>
+    intro f' i h h'
+    cases f' with
+    | zero => simp only [fmtLines]; rw [if_neg (by omega)]
+    | succ f' =>
+      simp only [fmtLines]
+      split
+      · rw [ih f' (i + 60) (by omega) (by omega)]
+      · rfl
+
+/-- inner loop of `NewOrigin` started on the buffer after the stream `s`: it either panics — and
+then the stream is longer than the buffer — or leaves the buffer after `s ++ (the groups)` -/
+theorem newOriginLoop2_spec (p : Bytes) (cap i : Nat) :
+    ∀ (f j : Nat) (s : Bytes),
+      (Gen.newOriginLoop2 p (p.length : Int) (i : Int) f (bufOf cap s) (offOf cap s : Int) (j : Int) = .error .panic
+          ∧ cap < (s ++ fmtGroups p i f j).length) ∨
+      ∃ j' : Nat, Gen.newOriginLoop2 p (p.length : Int) (i : Int) f (bufOf cap s) (offOf cap s : Int) (j : Int) =
+        .ok (bufOf cap (s ++ fmtGroups p i f j), (offOf cap (s ++ fmtGroups p i f j) : Int), (j' : Int)) := by
+  intro f
+  induction f with
+  | zero => intro j s; right; exact ⟨j, by simp [Gen.newOriginLoop2, fmtGroups]⟩
+  | succ f ih =>
+    intro j s
+    simp only [Gen.newOriginLoop2, fmtGroups]
+    by_cases hc : j < 60 ∧ i + j < p.length
+    · rw [if_pos hc, if_pos (show (j : Int) < 60 ∧ (i : Int) + (j : Int) < (p.length : Int) by omega)]
+      by_cases hroom : s.length < cap
+      · have e1 : (i : Int) + (j : Int) = ((i + j : Nat) : Int) := by omega
+        have e2 : ((i + j : Nat) : Int) + 10 = ((i + j + 10 : Nat) : Int) := by omega
+        rw [Gen.goStore_bufOf cap s _ hroom, e1, e2, gmin_nat]
+        dsimp only
+        rw [Gen.goSlice_nat p _ _ (by omega) (by omega), Gen.offOf_snoc cap s _ hroom]
+        dsimp only
+        rw [Gen.goCopyAt_bufOf]
+        dsimp only
+        rw [Gen.offOf_add_sub]
+        have e4 : (j : Int) + 10 = ((j + 10 : Nat) : Int) := by omega
+        rw [e4]
+        have hs : s ++ Gen.spaceByte :: ((p.drop (i + j)).take (min (i + j + 10) p.length - (i + j)) ++ fmtGroups p i f (j + 10))
+            = (s ++ [Gen.spaceByte] ++ (p.drop (i + j)).take (min (i + j + 10) p.length - (i + j))) ++ fmtGroups p i f (j + 10) := by
+          simp
+        have := ih (j + 10) (s ++ [Gen.spaceByte] ++ (p.drop (i + j)).take (min (i + j + 10) p.length - (i + j)))
+        rw [← hs] at this
+        exact this
+      · left
+        rw [Gen.goStore_bufOf_full cap s _ (by omega)]
+        refine ⟨rfl, ?_⟩
+        simp only [List.length_append, List.length_cons]
+        omega
+    · rw [if_neg hc, if_neg (show ¬ ((j : Int) < 60 ∧ (i : Int) + (j : Int) < (p.length : Int)) by omega)]
+      right; exact ⟨j, by simp⟩
+
+/-- outer loop of `NewOrigin` started on the buffer after the stream `s`: it either panics — and
+then the stream is longer than the buffer — or leaves the buffer after `s ++ (the lines)`, and if
+it wrote anything the stream fits (its last write is a checked single-byte store) -/
+theorem newOriginLoop_spec (p : Bytes) (cap fuel0 : Nat) (h0 : 6 ≤ fuel0) :
+    ∀ (f i : Nat) (s : Bytes),
+      (Gen.newOriginLoop fuel0 fmt9 p (p.length : Int) f (bufOf cap s) (offOf cap s : Int) (i : Int) = .error .panic
+          ∧ cap < (s ++ fmtLines p f i).length) ∨
+      ∃ i' : Nat, Gen.newOriginLoop fuel0 fmt9 p (p.length : Int) f (bufOf cap s) (offOf cap s : Int) (i : Int) =
+        .ok (bufOf cap (s ++ fmtLines p f i), (offOf cap (s ++ fmtLines p f i) : Int), (i' : Int))
+        ∧ (fmtLines p f i = [] ∨ (s ++ fmtLines p f i).length ≤ cap) := by
+  intro f
+  induction f with
+  | zero => intro i s; right; exact ⟨i, by simp [Gen.newOriginLoop, fmtLines], Or.inl rfl⟩
+  | succ f ih =>
+    intro i s
+    simp only [Gen.newOriginLoop, fmtLines]
+    by_cases hc : i < p.length
+    · rw [if_pos hc, if_pos (show (i : Int) < (p.length : Int) by omega), fmt9_succ, Gen.goCopyAt_bufOf]
+      dsimp only
+      rw [Gen.offOf_add_sub, fmtGroups_fuel p i 6 fuel0 0 (by omega) (by omega)]
+      have hA : ∀ (a b c : Bytes), s ++ (a ++ (b ++ 10 :: c)) = ((s ++ a) ++ b ++ [10]) ++ c := by
+        intro a b c; simp
+      rcases newOriginLoop2_spec p cap i fuel0 0 (s ++ index9 (i + 1)) with ⟨hg, hlen⟩ | ⟨j', hg⟩
+      · left
+        rw [show (0 : Int) = ((0 : Nat) : Int) from rfl, hg]
+        refine ⟨rfl, ?_⟩
+        rw [hA]
+        simp only [List.length_append] at hlen ⊢
+        omega
+      · rw [show (0 : Int) = ((0 : Nat) : Int) from rfl, hg]
+        dsimp only
+        by_cases hroom : (s ++ index9 (i + 1) ++ fmtGroups p i fuel0 0).length < cap
+        · rw [Gen.goStore_bufOf cap _ _ hroom, Gen.offOf_snoc cap _ _ hroom]
+          dsimp only
+          have e3 : (i : Int) + 60 = ((i + 60 : Nat) : Int) := by omega
+          rw [e3, hA]
+          rcases ih (i + 60) (s ++ index9 (i + 1) ++ fmtGroups p i fuel0 0 ++ [10]) with ⟨hg2, hlen2⟩ | ⟨i', hg2, hfit⟩
+          · left; exact ⟨hg2, hlen2⟩
+          · right
+            refine ⟨i', hg2, Or.inr ?_⟩
+            rcases hfit with hnil | hle
+            · rw [hnil, List.append_nil]
+              simp only [List.length_append, List.length_cons, List.length_nil] at hroom ⊢
+              omega
+            · exact hle
+        · left
+          rw [Gen.goStore_bufOf_full cap _ _ (by omega)]
+          refine ⟨rfl, ?_⟩
+          rw [hA]
+          simp only [List.length_append, List.length_cons, List.length_nil] at hroom ⊢
+          omega
+    · rw [if_neg hc, if_neg (show ¬ (i : Int) < (p.length : Int) by omega)]
+      right; exact ⟨i, by simp, Or.inl rfl⟩
+
+/-- **`NewOrigin(p)`, as written in origin.go**, with `fmt.Sprintf("%9d", ·)` read as the model's
+`index9`, run with any fuel that covers the trip counts, returns the model's `newOrigin p` as the
+unparsed buffer — or panics exactly where the model says it does (a line index wider than nine
+columns: the stream outgrows `make([]byte, toOriginLength(len(p)))` and a single-byte store hits
+the end).  Every byte string. -/
+theorem newOrigin_eq (fuel : Nat) (p : Bytes) (h6 : 6 ≤ fuel) (hl : p.length ≤ 60 * fuel) :
+    Gen.newOrigin fuel fmt9 p =
+      match Origin.newOrigin p with
+      | .error e => .error e
+      | .ok b => .ok (b, false) := by
+  simp only [Gen.newOrigin, Origin.newOrigin, toOriginLength_eq, Origin.toOriginLength_nat]
+  rw [Gen.goMake_nat]
+  dsimp only
+  have hge := Origin.originStream_length_ge p
+  have hspec := newOriginLoop_spec p (tl p.length) fuel h6 fuel 0 []
+  rw [Gen.bufOf_nil, Gen.offOf_nil, List.nil_append, fmtLines_fuel p fuel p.length 0 (by omega) (by omega)] at hspec
+  change _ ∨ ∃ i', _ = Except.ok (bufOf (tl p.length) (originStream p), _, _) ∧ (originStream p = [] ∨ (originStream p).length ≤ _) at hspec
+  rw [show (0 : Int) = ((0 : Nat) : Int) from rfl]
+  rcases hspec with ⟨hg, hlen⟩ | ⟨i', hg, hfit⟩
+  · have hlen' : tl p.length < (originStream p).length := hlen
+    rw [hg, if_neg (by omega)]
+  · have hlen : (originStream p).length = tl p.length := by
+      rcases hfit with hnil | hle
+      · rw [hnil] at hge ⊢; simp only [List.length_nil] at hge ⊢; omega
+      · omega
+    rw [hg, if_pos (by rw [hlen]), Gen.bufOf_of_length_eq _ _ hlen]
+
+/-- **`Origin{p, parsed}.String()`, as written in origin.go**, is the model's `originString` -/
+theorem originString_eq (fuel : Nat) (p : Bytes) (parsed : Bool) (h6 : 6 ≤ fuel) (hl : p.length ≤ 60 * fuel) :
+    Gen.originString fuel fmt9 p parsed = Origin.originString p parsed := by
+  simp only [Gen.originString, Origin.originString]
+  cases parsed with
+  | false => simp
+  | true =>
+    simp only [newOrigin_eq fuel p h6 hl]
+    cases Origin.newOrigin p <;> simp
+
+/-- a concrete 13-residue sequence through the generated code: the block, the decoding (with the
+receiver left parsed), the short-buffer case, the lengths -/
+example :
+    Gen.newOrigin 6 fmt9 [97,99,103,116,97,99,103,116,97,99,103,116,110] =
+      .ok ([32,32,32,32,32,32,32,32,49,32,97,99,103,116,97,99,103,116,97,99,32,103,116,110,10], false)
+    ∧ Gen.originBytes 6 [32,32,32,32,32,32,32,32,49,32,97,99,103,116,97,99,103,116,97,99,32,103,116,110,10] false =
+      .ok ([97,99,103,116,97,99,103,116,97,99,103,116,110], [97,99,103,116,97,99,103,116,97,99,103,116,110], true)
+    ∧ Gen.originBytes 6 [32,32,32,32,32,32,32,32,49,32,97] false = .ok ([], [32,32,32,32,32,32,32,32,49,32,97], false)
+    ∧ Gen.originLen [32,32,32,32,32,32,32,32,49,32,97,99,103,116,97,99,103,116,97,99,32,103,116,110,10] false = .ok 13
+    ∧ Gen.originLen [] false = .ok 0 := by
+  decide
+
+example : (6 : Nat) ≤ 6 ∧ [97,99,103,116,97,99,103,116,97,99,103,116,110].length ≤ 60 * 6 := by decide
 
 end Gts.Bridge
